@@ -62,11 +62,21 @@ type parsed struct {
 	errs []*errors.Error
 }
 
+// reenter: when set, the error callback itself parses another (malformed) input before it returns - a callback may do anything,
+// and what it does must not change the tree of the parse that called it (C06: the callback never changes the returned tree)
+var reenter bool
+
 func doParse(src []byte, ver *version.Version, cb bool) parsed {
 	var p parsed
 	cfg := conf.Config{Version: ver}
 	if cb {
-		cfg.ErrorHandlerFunc = func(e *errors.Error) { p.errs = append(p.errs, e) }
+		re := reenter
+		cfg.ErrorHandlerFunc = func(e *errors.Error) {
+			p.errs = append(p.errs, e)
+			if re {
+				parser.Parse([]byte("<?php function g() { $a = ; if ( } echo 1 2;"), conf.Config{Version: ver, ErrorHandlerFunc: func(*errors.Error) {}})
+			}
+		}
 	}
 	p.root, p.err = parser.Parse(src, cfg)
 	return p
@@ -128,15 +138,30 @@ type recVisitor struct {
 func (r *recVisitor) rec(n ast.Vertex) { r.seq = append(r.seq, n) }
 
 func opAnalyze(t Task) Result {
-	src := s2b(tStr(t, "src"))
-	orig := append([]byte(nil), src...)
+	orig := s2b(tStr(t, "src"))
+	// the input is handed over as a slice with spare capacity behind it (a window into a larger buffer of the caller's):
+	// neither the input nor what lies behind it may be written
+	inbuf := make([]byte, len(orig)+32)
+	copy(inbuf, orig)
+	for i := len(orig); i < len(inbuf); i++ {
+		inbuf[i] = 0xAA
+	}
+	src := inbuf[:len(orig)]
 	ver := parseVersion(t)
 	cb := !tBool(t, "nocb")
+	reenter = tBool(t, "recb")
 	p := doParse(src, ver, cb)
+	reenter = false
 	res := Result{}
 	fails := &failList{}
 	if !bytes.Equal(src, orig) {
 		fails.add("C01.mutated")
+	}
+	for i := len(orig); i < len(inbuf); i++ {
+		if inbuf[i] != 0xAA {
+			fails.add("C01.mutated", "beyond_input", i-len(orig))
+			break
+		}
 	}
 	if p.err != nil {
 		res["parse_err"] = p.err.Error()
